@@ -235,11 +235,11 @@ int fam_move(const vh_args_t *a) {
 }
 
 /* ---------------------------------------------------------------- rowops */
-static const int BITPOS[] = {0, 1, 31, 62, 63};
+static const int BITPOS[] = {0, 1, 31, 32, 33, 62, 63};
 
 static int pick_col(int n) {
   if (vh_randint(0, 1)) {
-    int w = vh_randint(0, (n - 1) / 64), b = BITPOS[vh_randint(0, 4)];
+    int w = vh_randint(0, (n - 1) / 64), b = BITPOS[vh_randint(0, 6)];
     int c = w * 64 + b;
     if (c < n) return c;
   }
@@ -250,7 +250,8 @@ static void perm_fill(mzp_t *P, int len, int range, int kind) {
   /* kind 0 identity, 1 single swap, 2 full random LAPACK, 3 junk beyond len */
   for (int i = 0; i < P->length; i++) P->values[i] = i;
   if (kind == 1 && len > 0) { int i = vh_randint(0, len - 1); P->values[i] = vh_randint(i, range - 1); }
-  if (kind >= 2) for (int i = 0; i < len; i++) P->values[i] = vh_randint(i, range - 1);
+  if (kind == 2 || kind == 3) for (int i = 0; i < len; i++) P->values[i] = vh_randint(i, range - 1);
+  if (kind == 4 && len > 1) { if (vh_randint(0, 1)) P->values[len - 2] = len - 1; else P->values[vh_randint(0, len - 2)] = range - 1; }   /* only the last column / row moves */
 }
 
 static void rowops_step(mzd_t *A) {
@@ -355,7 +356,7 @@ static void rowops_step(mzd_t *A) {
     if (vh_randint(0, 3) == 0) len = vh_randint(1, range); /* permutation shorter than the dimension */
     if (which == 4) { len = range; }
     mzp_t *P = mzp_init(len);
-    perm_fill(P, len, len, vh_randint(0, 3));
+    perm_fill(P, len, len, vh_randint(0, 4));
     static const char *nm[] = {"apply_p_left", "apply_p_left_trans", "apply_p_right", "apply_p_right_trans", "apply_p_right_trans_tri", "apply_p_right",
                                "apply_p_right_capped", "apply_p_right_trans_capped"};
     /* the "capped" variants (rows from start_row on only; start_col = 0 as in the library's own use) */
